@@ -2,6 +2,7 @@ import NetVerif.Model.AckState
 import NetVerif.Gen.C25
 import NetVerif.Proofs.C24
 import NetVerif.Proofs.C26
+import NetVerif.Model.AckWire
 /-!
 C25 — QUIC acknowledges only received packets and never processes one twice.
 
@@ -629,6 +630,193 @@ example : ((grun (Loss.init 1200) {}
      C26.Op.ackEnd 0 1 1 none 1]).1.receiveAckRange 0 0 3).2.2 = true := by decide
 
 end AckRange
+
+/-! ## Part 3 — the wire monitor (V-tie): every accepted trace satisfies the three clauses -/
+
+section Wire
+open NetVerif.Model.AckWire
+
+abbrev WEv := NetVerif.Model.AckWire.Ev
+
+/-- Packet number `n` arrived at the Conn before/within the prefix (handshake arrivals are in `st0`). -/
+def Arrived (st0 : WState) (pre : List WEv) (n : Int) : Prop := n ∈ st0.arrived ∨ ∃ e ∈ pre, e.arrival = some n
+/-- The Conn was seen sending packet number `n`. -/
+def SentBefore (st0 : WState) (pre : List WEv) (n : Int) : Prop := n ∈ st0.sent ∨ ∃ e ∈ pre, n ∈ e.sent
+/-- The PATH_CHALLENGE carried by packet number `n` was answered. -/
+def Answered (st0 : WState) (pre : List WEv) (n : Int) : Prop := n ∈ st0.procd ∨ ∃ e ∈ pre, n ∈ e.resp
+
+/-- The three clauses of C25 for one event `e` after the prefix `pre`, stated on the wire trace alone. -/
+structure GoodAt (st0 : WState) (pre : List WEv) (e : WEv) : Prop where
+  /-- an ACK frame sent by the endpoint only acknowledges packet numbers that arrived -/
+  ack_only_received : ∀ f ∈ e.acks, ∀ r ∈ f, ∀ n, r.1 ≤ n → n < r.2 → Arrived st0 (pre ++ [e]) n
+  /-- no packet number is processed (answered) twice -/
+  processed_once : (∀ n ∈ e.resp, ¬ Answered st0 pre n) ∧ e.resp.Nodup
+  /-- a peer ACK frame in a packet that must be processed closes the connection with
+  PROTOCOL_VIOLATION iff it acknowledges a packet number the endpoint never sent -/
+  ack_of_unsent : ∀ p, e.arrival = some p → e.peerAck ≠ [] → (∀ a, Arrived st0 pre a → a < p) →
+    ((∃ r ∈ e.peerAck, ∃ n, r.1 ≤ n ∧ n < r.2 ∧ st0.sentLow ≤ n ∧ ¬ SentBefore st0 pre n) ↔
+      e.close = some errProtocolViolation)
+
+private theorem allIn_iff (lo hi : Int) (p : Int → Bool) :
+    allIn lo hi p = true ↔ ∀ n, lo ≤ n → n < hi → p n = true := by
+  unfold allIn
+  rw [List.all_eq_true]
+  constructor
+  · intro h n h1 h2
+    have := h (n - lo).toNat (List.mem_range.2 (by omega))
+    have e : lo + ((n - lo).toNat : Int) = n := by omega
+    rwa [e] at this
+  · intro h i hi'
+    have := List.mem_range.1 hi'
+    exact h _ (by omega) (by omega)
+
+private theorem anyIn_iff (lo hi : Int) (p : Int → Bool) :
+    anyIn lo hi p = true ↔ ∃ n, lo ≤ n ∧ n < hi ∧ p n = true := by
+  unfold anyIn
+  rw [List.any_eq_true]
+  constructor
+  · rintro ⟨i, hi', hp⟩
+    have := List.mem_range.1 hi'
+    exact ⟨_, by omega, by omega, hp⟩
+  · rintro ⟨n, h1, h2, hp⟩
+    refine ⟨(n - lo).toNat, List.mem_range.2 (by omega), ?_⟩
+    have e : lo + ((n - lo).toNat : Int) = n := by omega
+    rwa [e]
+
+private theorem nodupB_iff (l : List Int) : nodupB l = true ↔ l.Nodup := by
+  induction l with
+  | nil => simp [nodupB]
+  | cons x xs ih => simp [nodupB, ih, List.nodup_cons]
+
+private theorem after_spec (st0 : WState) (pre : List WEv) :
+    (∀ n, n ∈ (after st0 pre).arrived ↔ Arrived st0 pre n) ∧
+    (∀ n, n ∈ (after st0 pre).sent ↔ SentBefore st0 pre n) ∧
+    (∀ n, n ∈ (after st0 pre).procd ↔ Answered st0 pre n) ∧
+    (after st0 pre).sentLow = st0.sentLow := by
+  induction pre generalizing st0 with
+  | nil => simp [after, Arrived, SentBefore, Answered]
+  | cons e rest ih =>
+    obtain ⟨a, b, c, d⟩ := ih (next st0 e)
+    simp only [after, List.foldl_cons] at a b c d ⊢
+    refine ⟨?_, ?_, ?_, by rw [d]; rfl⟩
+    · intro n; rw [a n]
+      simp only [Arrived, next, arrivedAfter, List.mem_cons]
+      cases he : e.arrival with
+      | none =>
+        constructor
+        · rintro (h | ⟨x, hx, h⟩); exact Or.inl h; exact Or.inr ⟨x, Or.inr hx, h⟩
+        · rintro (h | ⟨x, hx | hx, h⟩)
+          · exact Or.inl h
+          · subst hx; rw [he] at h; exact absurd h (by simp)
+          · exact Or.inr ⟨x, hx, h⟩
+      | some p =>
+        simp only [List.mem_cons]
+        constructor
+        · rintro ((h | h) | ⟨x, hx, h⟩)
+          · exact Or.inr ⟨e, Or.inl rfl, by rw [he, h]⟩
+          · exact Or.inl h
+          · exact Or.inr ⟨x, Or.inr hx, h⟩
+        · rintro (h | ⟨x, hx | hx, h⟩)
+          · exact Or.inl (Or.inr h)
+          · subst hx; rw [he] at h; exact Or.inl (Or.inl (by simpa using h.symm))
+          · exact Or.inr ⟨x, hx, h⟩
+    · intro n; rw [b n]
+      simp only [SentBefore, next, List.mem_append, List.mem_cons]
+      constructor
+      · rintro ((h | h) | ⟨x, hx, h⟩)
+        · exact Or.inl h
+        · exact Or.inr ⟨e, Or.inl rfl, h⟩
+        · exact Or.inr ⟨x, Or.inr hx, h⟩
+      · rintro (h | ⟨x, hx | hx, h⟩)
+        · exact Or.inl (Or.inl h)
+        · subst hx; exact Or.inl (Or.inr h)
+        · exact Or.inr ⟨x, hx, h⟩
+    · intro n; rw [c n]
+      simp only [Answered, next, List.mem_append, List.mem_cons]
+      constructor
+      · rintro ((h | h) | ⟨x, hx, h⟩)
+        · exact Or.inl h
+        · exact Or.inr ⟨e, Or.inl rfl, h⟩
+        · exact Or.inr ⟨x, Or.inr hx, h⟩
+      · rintro (h | ⟨x, hx | hx, h⟩)
+        · exact Or.inl (Or.inl h)
+        · subst hx; exact Or.inl (Or.inr h)
+        · exact Or.inr ⟨x, hx, h⟩
+
+private theorem run_check (st : WState) (pre : List WEv) (e : WEv) (post : List WEv)
+    (h : run st (pre ++ e :: post) = true) : check (after st pre) e = true := by
+  induction pre generalizing st with
+  | nil => simp only [List.nil_append, Model.AckWire.run, Bool.and_eq_true] at h; exact h.1
+  | cons x rest ih =>
+    simp only [List.cons_append, Model.AckWire.run, Bool.and_eq_true] at h
+    exact ih (next st x) h.2
+
+/-- **Soundness of the wire monitor**: if the monitor accepts a recorded trace, then at every
+event the three clauses of C25 hold of what was observed on the wire. -/
+theorem monitor_sound (st0 : WState) (tr : List WEv) (h : run st0 tr = true) :
+    ∀ pre e post, tr = pre ++ e :: post → GoodAt st0 pre e := by
+  intro pre e post htr
+  subst htr
+  have hc := run_check st0 pre e post h
+  obtain ⟨sa, ss, sp, sl⟩ := after_spec st0 pre
+  generalize after st0 pre = st at hc sa ss sp sl
+  simp only [check, Bool.and_eq_true] at hc
+  obtain ⟨⟨⟨h1, h2⟩, h3⟩, h4⟩ := hc
+  refine ⟨?_, ⟨?_, (nodupB_iff _).1 h3⟩, ?_⟩
+  · intro f hf r hr n hn1 hn2
+    have := List.all_eq_true.1 (List.all_eq_true.1 h1 f hf) r hr
+    have := (allIn_iff _ _ _).1 this n hn1 hn2
+    have hm : n ∈ arrivedAfter st e := by simpa using this
+    simp only [arrivedAfter] at hm
+    simp only [Arrived, List.mem_append, List.mem_singleton]
+    cases he : e.arrival with
+    | none =>
+      rw [he] at hm
+      rcases (sa n).1 hm with h | ⟨x, hx, h⟩
+      · exact Or.inl h
+      · exact Or.inr ⟨x, Or.inl hx, h⟩
+    | some p =>
+      rw [he] at hm
+      rcases List.mem_cons.1 hm with h | hm
+      · exact Or.inr ⟨e, Or.inr rfl, by rw [he, h]⟩
+      · rcases (sa n).1 hm with h | ⟨x, hx, h⟩
+        · exact Or.inl h
+        · exact Or.inr ⟨x, Or.inl hx, h⟩
+  · intro n hn ha
+    have := List.all_eq_true.1 h2 n hn
+    have hnot : ¬ n ∈ st.procd := by simpa using this
+    exact hnot ((sp n).2 ha)
+  · intro p hp hne hfresh
+    have hf : isFresh st e = true := by
+      simp only [isFresh, hp, List.all_eq_true, decide_eq_true_eq]
+      intro a ha; exact hfresh a ((sa a).1 ha)
+    have hne' : (!e.peerAck.isEmpty) = true := by
+      cases hq : e.peerAck with
+      | nil => exact absurd hq hne
+      | cons _ _ => rfl
+    simp only [hne', hf, Bool.and_self, if_true] at h4
+    have hcov : coversUnsent st e.peerAck = true ↔
+        ∃ r ∈ e.peerAck, ∃ n, r.1 ≤ n ∧ n < r.2 ∧ st0.sentLow ≤ n ∧ ¬ SentBefore st0 pre n := by
+      simp only [coversUnsent, List.any_eq_true, anyIn_iff, Bool.and_eq_true, decide_eq_true_eq,
+        Bool.not_eq_true', sl]
+      constructor
+      · rintro ⟨r, hr, n, h1, h2, h3, h4⟩
+        refine ⟨r, hr, n, h1, h2, h3, ?_⟩
+        intro hs
+        have : st.sent.contains n = true := by simpa using (ss n).2 hs
+        rw [this] at h4; exact absurd h4 (by decide)
+      · rintro ⟨r, hr, n, h1, h2, h3, h4⟩
+        refine ⟨r, hr, n, h1, h2, h3, ?_⟩
+        cases hcn : st.sent.contains n with
+        | false => rfl
+        | true => exact absurd ((ss n).1 (by simpa using hcn)) h4
+    rw [← hcov]
+    have hb : (coversUnsent st e.peerAck == (e.close == some errProtocolViolation)) = true := h4
+    have := eq_of_beq hb
+    rw [this]
+    simp
+
+end Wire
 
 /-! ## T-tie -/
 
